@@ -23,6 +23,14 @@ structure CertQ where
   closed : Bool                -- the server closed the connection afterwards
   replies : List Reply
 
+/-- what `VarlinkService::handle` takes for a request (lib.rs 1500-1525, after ce5196b): the
+    message must be a JSON object (serde's derive alone would also take the array form) and
+    deserialize as `Request` -/
+def frameRequest (cvt : Int â†’ Nat) (raw : Json) : Option Request :=
+  match raw with
+  | .obj _ => decodeRequest cvt raw
+  | _ => none
+
 abbrev Tracker := List (String Ã— Step)
 
 def Tracker.get (t : Tracker) (id : String) : Option Step :=
@@ -87,7 +95,7 @@ def P_C19_history (cvt : Int â†’ Nat) : List String â†’ Tracker â†’ List CertQ â
       | some e => !allowedErrors.contains e
       | none => false
     if badReply then some "unexpected-error-name" else
-    match decodeRequest cvt q.raw with
+    match frameRequest cvt q.raw with
     | none =>
       -- not a request at all: nothing may be answered
       if !q.replies.isEmpty then some "reply-to-undecodable-request"
